@@ -12,7 +12,7 @@ import numpy as np
 
 from ..core import import_library
 from ..gen import terms as G
-from ..probe import Probe, Reach
+from ..probe import Probe, Reach, check_unmutated, snapshot_arrays
 from ..ref import terms as R
 
 WORKERS = {"quick": 1, "thorough": 16}
@@ -35,10 +35,11 @@ class MembershipMonitor:
     def install(self, probe):
         for kind in list(R.REF) + ["Constant"]:
             cls = getattr(self.fl, kind)
-            self.orig[kind] = probe.wrap(cls, "membership", after=self._after)
+            self.orig[kind] = probe.wrap(cls, "membership", before=snapshot_arrays, after=self._after)
 
     def _after(self, args, kwargs, token, result, exc):
-        self.judge(args[0], args[1], result, exc)
+        x = check_unmutated(self.ctx, f"{type(args[0]).__name__}.membership", args, token)
+        self.judge(args[0], x, result, exc)
 
     def judge(self, term, x, result, exc):
         ctx = self.ctx
@@ -208,6 +209,28 @@ def run(ctx):
                 term.membership(arr[:, None])
             if i < len(kinds) and i % 5 == 0:
                 ctx.sample("term", {"spec": spec, "x": xs[:8], "membership": term.membership(np.array(xs[:8]))})
+        # the same term and the same array object used again after the array was refilled / a parameter was changed (stale state)
+        for i, rnd in ctx.cases("reuse", len(kinds) * ctx.scale(6, 120)):
+            kind = kinds[i % len(kinds)]
+            lo, hi, d = ranges(rnd)
+            spec = G.shape_term(rnd, "t", lo, hi, kind=kind, d=d)
+            term = G.build_term(fl, spec)
+            buf = np.array(G.x_values(rnd, spec, lo, hi, n=8))
+            for _ in range(3):
+                r1 = term.membership(buf)
+                keep = np.array(r1, copy=True)
+                buf[:] = rnd.sample(G.x_values(rnd, spec, lo, hi, n=buf.size), buf.size)
+                ctx.hit("event:buffer refilled in place")
+                if not np.array_equal(np.asarray(r1), keep, equal_nan=True):
+                    ctx.violation(f"{kind}: a returned result changes when the argument array is later modified (aliases its argument)", {"term": kind}, keep, r1)
+                term.membership(buf)
+                if kind != "Discrete":
+                    term.height = rnd.choice([1.0, 0.5, 0.25])  # the monitor reads the parameters live
+                    other = G.shape_term(rnd, "t", lo, hi, kind=kind, d=d)
+                    for attr, v in zip(R.ATTRS[kind], other["params"]):
+                        setattr(term, attr, v)
+                    ctx.hit("event:parameters changed between calls")
+                    term.membership(buf)
         # Constant as the degenerate case
         for i, rnd in ctx.cases("constant", ctx.scale(20, 400)):
             c = fl.Constant("k", rnd.choice([0.0, 1.5, -3.25, rnd.uniform(-10, 10), math.inf]))
